@@ -384,6 +384,34 @@ def primitive_cells(rng: random.Random | None):  # noqa: ANN201
 
     yield ("functools.reduce[async empty + initial]", {}, b_reduce_async_empty)
 
+    # the reducer IS called, and (worst case, see ASSUMPTIONS) never suspends
+    for label, mk_src, init in (("two elements", lambda: [1, 2], None),
+                                ("one element + initial", lambda: [1], 10),
+                                ("async source, three elements", lambda: _agen_of([1, 2, 3]), None)):
+        async def b_reduce_called(tg, mk_src=mk_src, init=init):  # noqa: ANN001, ANN202
+            from anyio.functools import reduce
+
+            calls: list = []
+
+            async def f(a, b):  # noqa: ANN001, ANN202
+                calls.append(1)
+                return a + b
+
+            if init is None:
+                return (lambda: reduce(f, mk_src()), lambda: "reducer called" if calls else None)
+
+            return (lambda: reduce(f, mk_src(), init), lambda: "reducer called" if calls else None)
+
+        yield (f"functools.reduce[{label}; reducer never suspends]", {}, b_reduce_called)
+
+
+async def _agen_of(xs):  # noqa: ANN001, ANN202
+    for x in xs:
+        yield x
+
+
+F31_REDUCE = "reduce:checkpoint-left-to-the-reducer"
+
 
 async def _fork(AI, source, how: str):  # noqa: ANN001, ANN202, N803
     """tee() applied to a tee iterator; the parent is advanced first"""
@@ -587,7 +615,10 @@ async def run_primitive(name, params, build, half, col, cfg) -> None:  # noqa: A
     col.count("cells:primitive")
     col.add_to_set("operations", name)
     for clause, detail in viol:
-        col.violation(clause, detail, case)
+        # F31: reduce() leaves the checkpoint to the reducer once it has called it
+        mech = F31_REDUCE if name.startswith("functools.reduce[") and "reducer never suspends" in name and clause in (
+            "no-yield", "no-cancellation-check", "effect-performed-in-cancelled-scope") else None
+        col.violation(clause, detail, case, mech)
 
 
 async def run_condition_wait(col, cfg, ctx="plain") -> None:  # noqa: ANN001
